@@ -21,7 +21,7 @@ class Schema(object):
   """Static structure (by keys). cols[T] = {key: {'kind': 'text'|'int'|'num'|'ref'|'reflist', 'target': T2}}"""
   def __init__(self, rnd):
     self.rnd = rnd
-    self.tables = ['A', 'P', 'E'] + (['Q'] if rnd.random() < 0.4 else [])
+    self.tables = ['A', 'P', 'E'] + (['Q'] if rnd.random() < 0.25 else [])
     self.cols = {}
     self.init_tid = {}
     self.init_cid = {}
@@ -177,7 +177,7 @@ class FormulaGen(object):
     if rc and self.r.random() < 0.6:
       x, _ = self.sc(tgt)
       return self.r.choice([
-        u'f"{%s}:{%s:>3} %s ${%s} {$%s.%s!r}"' % (t, i, n, n, rc, x),
+        u'f"{%s}:{%s:>3} %s $%s {{%s}} {$%s.%s!r}"' % (t, i, n, n, n, rc, x),
         u'f"{$%s.%s + "%s"} {{%s}}"' % (rc, x, n, n),
         u"f'{rec.%s.%s}' f'{%s}' '%s'" % (rc, x, i, n),
       ])
